@@ -799,6 +799,9 @@ pub struct GzFields {
     pub extra: Option<Vec<u8>>,
     pub name: Option<Vec<u8>>,
     pub comment: Option<Vec<u8>>,
+    /// the C 'boolean int' values handed to deflateSetHeader for text / hcrc (any non-zero = true)
+    pub text_val: i32,
+    pub hcrc_val: i32,
 }
 
 pub fn gen_gz_fields(t: &mut Tape, big: bool) -> GzFields {
@@ -806,6 +809,8 @@ pub fn gen_gz_fields(t: &mut Tape, big: bool) -> GzFields {
     let flags = t.u8();
     f.text = flags & 1 != 0;
     f.hcrc = flags & 2 != 0;
+    f.text_val = if f.text { t.pick(&[1, 1, 2, -1, 255, i32::MIN, 256]) } else { 0 };
+    f.hcrc_val = if f.hcrc { t.pick(&[1, 1, 2, -1, 222, -42, i32::MIN, 65536]) } else { 0 };
     f.mtime = if flags & 0x80 != 0 { t.u32() } else { 0 };
     f.xfl = t.pick(&[0u8, 2, 4, 0xff, 1]);
     f.os = t.pick(&[3u8, 0, 255, 11, 7]);
